@@ -373,6 +373,57 @@ func (in *Interp) stmt(s *S, sc *Scope, last *Value) signal {
 	case "mutex":
 		return in.block(s.Body, in.child(sc, s.ID), nil)
 
+	case "rw":
+		v, sig := in.eval(s.E, sc)
+		if sig.kind != sigNone {
+			return sig
+		}
+		if s.L.K != "idx" && s.L.K != "dot" {
+			return unspec("rw-target")
+		}
+		cv, sig := in.eval(s.L.A[0], sc)
+		if sig.kind != sigNone {
+			return sig
+		}
+		var key Value = s.L.S
+		if s.L.K == "idx" {
+			if key, sig = in.eval(s.L.A[1], sc); sig.kind != sigNone {
+				return sig
+			}
+		}
+		normal := false
+		switch c := cv.(type) {
+		case *ListV:
+			if c.Dead {
+				return unspec("use-after-add-del")
+			}
+			if i, ok := listIndex(key, len(c.Items)); ok {
+				c.Items[i] = v
+				normal = true
+			} else {
+				c.Dead = true // what an unusual index touches is not documented
+			}
+		case *MapV:
+			if c.Dead {
+				return unspec("use-after-add-del")
+			}
+			if _, ok := mapKey(c, key); ok {
+				if sg := in.assign(s.L, v, sc, false); sg.kind != sigNone {
+					return sg
+				}
+				normal = true
+			} else {
+				c.Dead = true
+			}
+		}
+		if normal {
+			in.trace = append(in.trace, TraceItem{Val: &ListV{Items: []Value{s.Name, Snapshot(v)}}})
+		} else {
+			// the write may fail (then nothing is claimed) or succeed (then the same expression must read the value back)
+			in.trace = append(in.trace, TraceItem{Alt: []Value{&ListV{Items: []Value{s.Name, Snapshot(v)}}, &ListV{Items: []Value{s.Name, "ERR"}}}})
+		}
+		return none
+
 	case "probe":
 		lab := s.Name
 		if d := sc.find(s.L.S); d != nil {
